@@ -366,6 +366,9 @@ func (cr *cursor) updateNumSequence() bool {
 		}
 	case seenCloseNum:
 		cr.numSequence = noNumSequence // close the sequence anyway
+		if cr.line == ucd.BreakNU {    // ... but a number starts a new one
+			cr.numSequence = inNumSequence
+		}
 		if cr.line == ucd.BreakPO || cr.line == ucd.BreakPR {
 			// NU (NU | SY | IS)* (CL | CP) × (PO | PR)
 			return true
